@@ -127,6 +127,9 @@ def gen_spec_plain(rng, kind):
         # a polyline through unrelated random points: it turns sharply and comes close to itself
         pts = [[rng.uniform(-4, 4) for _ in range(3)] for _ in range(rng.randint(4, 8))]
         return dict(kind="linear", points=pts, equalize=True, zigzag=True)
+    if kind == "seamcircle":
+        # a closed circle (bounds 0..2 pi): queries and edge vertices next to its seam, see gen_cases
+        return dict(gen_spec_plain(rng, "circle"), bounds=[0.0, 2 * math.pi], seam=True)
     scale = 10 ** rng.uniform(-2, 2)
     if kind == "line":
         p1 = [rng.uniform(-1, 1) * scale for _ in range(3)]
@@ -255,26 +258,29 @@ def observed_counts(curve):
 
 
 def closest_with_start(curve, q):
-    """(result of get_closest_param, start value handed to scipy.optimize.minimize, or None if it was not called once)"""
+    """(result of get_closest_param, runs): runs = [(start value handed to scipy.optimize.minimize, parameter it returned), ...]
+    in the order of the calls, or None if the minimiser was not called at all (search rewritten?)"""
     import scipy.optimize as so
     rec = []
     orig = so.minimize
 
     def spy(fun, x0, *a, **k):
-        rec.append(float(np.atleast_1d(x0)[0]))
-        return orig(fun, x0, *a, **k)
+        out = orig(fun, x0, *a, **k)
+        rec.append((float(np.atleast_1d(x0)[0]), float(np.atleast_1d(out.x)[0])))
+        return out
 
     so.minimize = spy
     try:
         r = curve.get_closest_param(q)
     finally:
         so.minimize = orig
-    return r, (rec[0] if len(rec) == 1 else None)
+    return r, (rec if rec else None)
 
 
-def coarse_param(curve, q):
-    """result of the coarse stage of the search = the start value of the minimiser (observed, not re-implemented)"""
-    return closest_with_start(curve, q)[1]
+def coarse_params(curve, q):
+    """results of the coarse stage of the search = the start values of the minimiser runs (observed, not re-implemented)"""
+    runs = closest_with_start(curve, q)[1]
+    return None if runs is None else [t0 for (t0, _x) in runs]
 
 
 def make_edge(curve, v1, v2, n_points, representation):
@@ -561,15 +567,25 @@ def oracle_case(case, ob=None):
         dc = min(float(np.linalg.norm(p - q)) for p in cs)
         if not d <= dc + 1e-9 * ext:
             return "closest parameter %r (distance %.9g) is farther than a coarse sample (%.9g)" % (res, d, dc)
+        if case.get("seam"):
+            # query next to the seam of a closed curve (both ends of the bounds are the same point): the property statement
+            # itself - at least as close as every one of 2000 dense samples
+            ts = np.linspace(float(curve.bounds[0]), float(curve.bounds[1]), 2000)
+            dsm = [float(np.linalg.norm(curve.get_point(float(t)) - q)) for t in ts]
+            i = int(np.argmin(dsm))
+            if not d <= dsm[i] + 1e-4 * S:
+                return ("query next to the seam of a closed curve: closest parameter %r at distance %.9g, dense sample t=%r at %.9g"
+                        % (res, d, float(ts[i]), dsm[i]))
+            return None
         if case["near"]:
             dd, td = dense_min(curve, q)
             if not d <= dd + 1e-4 * ext:
-                t0 = coarse_param(curve, q)
+                t0s = coarse_params(curve, q)
                 spacing = (float(curve.bounds[1]) - float(curve.bounds[0])) / max(len(cs) - 1, 1)
-                if t0 is not None and abs(t0 - td) > 1.5 * spacing:
-                    return ("closest parameter misses the nearest part of the curve: the coarse sample nearest to the query lies on "
+                if t0s and all(abs(t0 - td) > 1.5 * spacing for t0 in t0s):
+                    return ("closest parameter misses the nearest part of the curve: every coarse sample the search starts from lies on "
                             "another part of the curve (coarse t=%r, nearest point at t=%r); result %r at distance %.9g, nearest %.9g"
-                            % (t0, td, res, d, dd))
+                            % (t0s if len(t0s) > 1 else t0s[0], td, res, d, dd))
                 return "closest parameter %r at distance %.9g, dense sample t=%r at %.9g" % (res, d, td, dd)
         return None
     if op == "edge":
@@ -585,6 +601,13 @@ def oracle_case(case, ob=None):
             tv = curve.get_closest_param(v)
             if not abs(float(tv) - t) <= 1e-6 * max(1.0, abs(t)):
                 return "edge parameter %r is not the parameter %r of its %s vertex" % (t, tv, nm)
+        if case.get("seam"):
+            # both vertices lie on the (closed) curve: the curve points of the edge's two parameters are the vertices
+            for nm, v, t in (("first", ob["w1"], ps), ("second", ob["w2"], pe)):
+                dv = float(np.linalg.norm(curve.get_point(t) - np.array(v)))
+                if not dv <= 1e-4 * S:
+                    return ("vertex next to the seam of a closed curve: the curve point of the edge's parameter %r is %.9g away "
+                            "from its %s vertex, which lies on the curve" % (t, dv, nm))
         lo, hi = min(ps, pe), max(ps, pe)
         if kind == "discrete":
             a, b = int(ps), int(pe)
@@ -656,6 +679,31 @@ def gen_cases(rng, cc):
         cases = [dict(op="point"), dict(op="length", a=cc.lo, m=float(rng.choice(cc.ts[1:-1])), b=cc.hi, full=True)]
         for i in rng.sample(range(len(cc.pts)), min(3, len(cc.pts))):
             cases.append(dict(op="closest", q=fl(cc.pts[i]), near=True, extent=ext))
+        for c in cases:
+            c["spec"] = spec
+        return cases
+    if spec.get("seam"):
+        # closed curve: query points and an edge vertex within one coarse step on EITHER side of the seam (C16's quantifier
+        # says "away from the seam" for the dense optimality of ordinary cases; these are a separate stream whose oracle is
+        # the property statement itself, see oracle_case)
+        lo, hi = cc.lo, cc.hi
+        step = (hi - lo) / max((cc.n_coarse or 15) - 1, 1)
+        cases = [dict(op="point")]
+        for side in (0, 1, 0, 1):
+            off = rng.uniform(0.02, 0.98) * step * (0.5 if rng.random() < 0.6 else 1.0)
+            t = lo + off if side == 0 else hi - off
+            d = np.array([rng.gauss(0, 1) for _ in range(3)])
+            d /= np.linalg.norm(d)
+            q = curve.get_point(t) + d * (rng.uniform(0, 0.02) * ext if rng.random() < 0.7 else 0.0)
+            cases.append(dict(op="closest", q=fl(q), near=True, extent=ext, seam=True))
+        off = rng.uniform(0.02, 0.48) * step
+        t1 = lo + off if rng.random() < 0.5 else hi - off
+        t2 = rng.uniform(lo + 1.5 * step, hi - 1.5 * step)
+        v1, v2 = curve.get_point(t1), curve.get_point(t2)
+        if rng.random() < 0.5:
+            v1, v2 = v2, v1
+        cases.append(dict(op="edge", v1=fl(v1), v2=fl(v2), n_points=rng.randint(1, 4), representation=rng.choice(["spline", "polyLine"]),
+                          extent=ext, seam=True))
         for c in cases:
             c["spec"] = spec
         return cases
@@ -851,7 +899,7 @@ def case_checks(cc, case, res, rng, ob=None):
         return qs, rs
     if op == "closest":
         q = np.array(case["q"])
-        r, t0 = (curve.get_closest_param(q), None) if kind == "discrete" else closest_with_start(curve, q)
+        r, runs = (curve.get_closest_param(q), None) if kind == "discrete" else closest_with_start(curve, q)
         QQ, RQ = QV(q), V(q)
         if kind == "discrete":
             ds = sorted(float(np.linalg.norm(np.array(x) - q)) for x in cc.pts)
@@ -860,45 +908,73 @@ def case_checks(cc, case, res, rng, ob=None):
             return ["Nat.eqb (qclosest_idx %spts %s) %d" % (p, QQ, int(r))], []
         r = float(r)
         d9, d4 = 1e-9 * case["extent"], 1e-4 * case["extent"]
-        if t0 is None:
-            # the search does not start scipy.optimize.minimize exactly once (rewritten?): only the result is judged
-            res.count("closest: start value not observable")
+        full_circle = kind == "circle" and cc.hi - cc.lo >= 2 * math.pi - 1e-12
+        if runs is None:
+            # the search does not call scipy.optimize.minimize (rewritten?): only the result is judged
+            res.count("closest: start values not observable")
             qs.append("Qle_bool %s %s && Qle_bool %s %s" % (Q(cc.lo), Q(r), Q(r), Q(cc.hi)))
             if kind == "line":
                 qs.append("qnot_farther %s (%s %s) %s (qd2 (%s (qline_topt %sp1 %sp2 %s %s %s)) %s)"
                           % (Q(d4), cc.FQ, Q(r), QQ, cc.FQ, p, p, Q(cc.lo), Q(cc.hi), QQ, QQ))
             return qs, rs
+        # model: fc_closest with ns = number of runs (read from the implementation: 1 in the snapshot, 3 with fixes/C16-2)
+        ns = len(runs)
+        res.count("closest: %d start(s)" % ns)
         cnt = cc.n_coarse
         lin = np.linspace(cc.lo, cc.hi, cnt)
-        k = int(np.argmin(np.abs(lin - t0)))
+        ks = [int(np.argmin(np.abs(lin - t0))) for (t0, _x) in runs]
         cs = curve.discretize()
         if len(cs) != cnt:
             return ["false"], []
         ds = sorted(float(np.linalg.norm(x - q)) for x in cs)
-        if ds[1] - ds[0] < 1e-9 * cc.size:
+        tie = any(ds[i + 1] - ds[i] < 1e-9 * cc.size for i in range(min(ns, len(ds) - 1)))
+        if tie and not case.get("seam"):
             raise Boundary()
-        # coarse stage: argmin over the samples of discretize(), parameter from linspace over the bounds
-        qs.append("Nat.eqb (qclosest_idx %s %s) %d" % (QVL(cs), QQ, k))
-        qs.append("qabs_le (qlin_at %s %s %d %d - %s) %s" % (Q(cc.lo), Q(cc.hi), cnt, k, Q(t0), Q(ptol(cc.lo, cc.hi))))
-        # the minimiser assumption, monitored: inside the bounds, not farther than its start point
-        qs.append("Qle_bool %s %s && Qle_bool %s %s" % (Q(cc.lo), Q(r), Q(r), Q(cc.hi)))
+        # coarse stage: the starts are the parameters (linspace over the bounds) of the ns samples of discretize() nearest to
+        # the query, nearest first (stable argsort; its head is np.argmin).  Next to the seam of a closed curve the two end
+        # samples are the same point up to rounding: the order of the tie is not compared there
+        if tie:
+            res.count("closest: tie among the nearest coarse samples (seam), order of the starts not compared")
+            if len(set(ks)) != ns:
+                qs.append("false")
+        else:
+            qs.append("nat_list_eqb (qstart_idxs %s %s %d) [%s]" % (QVL(cs), QQ, ns, "; ".join("%d%%nat" % k for k in ks)))
+        for (t0, _x), k in zip(runs, ks):
+            qs.append("qabs_le (qlin_at %s %s %d %d - %s) %s" % (Q(cc.lo), Q(cc.hi), cnt, k, Q(t0), Q(ptol(cc.lo, cc.hi))))
+        # the minimiser assumption, monitored on every run: inside the bounds, not farther than its start point;
+        # the final selection: the result is the result of one of the runs and not farther than the result of any run
+        for (_t0, x) in runs:
+            qs.append("Qle_bool %s %s && Qle_bool %s %s" % (Q(cc.lo), Q(x), Q(x), Q(cc.hi)))
+        if r not in [x for (_t0, x) in runs]:
+            qs.append("false")
+        others = sorted({x for (_t0, x) in runs if x != r})
         if trans:
             conj = []
-            for j in (k,):
-                conj.append("dist (%s (lin_at %s %s %d %d)) %s <= %s" % (cc.F, R(cc.lo), R(cc.hi), cnt, j, V(cs[j]), rtol))
-            conj.append("dist (%s %s) %s <= dist (%s %s) %s + %s" % (cc.F, R(r), RQ, cc.F, R(t0), RQ, R(d9)))
-            # certificate of global optimality (C16_closest_circle: circle_lb is a lower bound of the squared distance)
-            if kind == "circle" and case["near"] and cc.lo + 1e-3 < r < cc.hi - 1e-3:
+            for k in sorted(set(ks)):
+                conj.append("dist (%s (lin_at %s %s %d %d)) %s <= %s" % (cc.F, R(cc.lo), R(cc.hi), cnt, k, V(cs[k]), rtol))
+            for (t0, x) in runs:
+                conj.append("dist (%s %s) %s <= dist (%s %s) %s + %s" % (cc.F, R(x), RQ, cc.F, R(t0), RQ, R(d9)))
+            for x in others:
+                conj.append("dist (%s %s) %s <= dist (%s %s) %s + %s" % (cc.F, R(r), RQ, cc.F, R(x), RQ, R(d9)))
+            # certificate of global optimality (C16_closest_circle: circle_lb is a lower bound of the squared distance to the
+            # WHOLE circle; on an arc the optimum may sit at a bound, where it says nothing)
+            if kind == "circle" and case["near"] and (full_circle or cc.lo + 1e-3 < r < cc.hi - 1e-3):
                 conj.append("circle_defect %so %srim %sk %s %s <= %s" % (p, p, p, RQ, R(r), R(d4)))
             rs.append(conj)
         elif kind == "spline":
             vals = [curve.function(float(t)) for t in lin]
             qs.append("qclose_rlist %s (qlinspace %s %s %d) %s" % (Q(ptol(cc.lo, cc.hi)), Q(cc.lo), Q(cc.hi), cnt, QL(lin)))
             qs.append("qclose_list %s %s %s" % (tol, QVL(vals), QVL(cs)))
-            qs.append("qnot_farther %s %s %s (qd2 %s %s)" % (Q(d9), QV(curve.function(r)), QQ, QV(curve.function(t0)), QQ))
+            for (t0, x) in runs:
+                qs.append("qnot_farther %s %s %s (qd2 %s %s)" % (Q(d9), QV(curve.function(x)), QQ, QV(curve.function(t0)), QQ))
+            for x in others:
+                qs.append("qnot_farther %s %s %s (qd2 %s %s)" % (Q(d9), QV(curve.function(r)), QQ, QV(curve.function(x)), QQ))
         else:
             qs.append("qclose_list %s (map %s (qlinspace %s %s %d)) %s" % (tol, cc.FQ, Q(cc.lo), Q(cc.hi), cnt, QVL(cs)))
-            qs.append("qnot_farther %s (%s %s) %s (qd2 (%s %s) %s)" % (Q(d9), cc.FQ, Q(r), QQ, cc.FQ, Q(t0), QQ))
+            for (t0, x) in runs:
+                qs.append("qnot_farther %s (%s %s) %s (qd2 (%s %s) %s)" % (Q(d9), cc.FQ, Q(x), QQ, cc.FQ, Q(t0), QQ))
+            for x in others:
+                qs.append("qnot_farther %s (%s %s) %s (qd2 (%s %s) %s)" % (Q(d9), cc.FQ, Q(r), QQ, cc.FQ, Q(x), QQ))
             # certificates of global optimality (C16_closest_line, C16_closest_linear)
             if kind == "line":
                 qs.append("qnot_farther %s (%s %s) %s (qd2 (%s (qline_topt %sp1 %sp2 %s %s %s)) %s)"
@@ -1005,7 +1081,9 @@ class C16(Prop):
         res = CorrResult()
         res.rule = ("random curves (discrete, linear- and spline-interpolated with uneven spacing, line, circle, helix) x "
                     "{points at knots/bounds, get_point, discretize in either order, get_length over a split in both orders, "
-                    "get_closest_param near/far, OnCurve edge through Mesh.assemble}; piecewise-linear/rational parts of the "
+                    "get_closest_param near/far, OnCurve edge through Mesh.assemble} + zig-zag polylines queried at their knots + "
+                    "closed circles with queries and an edge vertex within a coarse step on either side of the seam; "
+                    "piecewise-linear/rational parts of the "
                     "model evaluated by vm_compute over Q on the exact binary64 inputs (square roots enclosed with Z.sqrt), "
                     "circle/helix points by `interval`; tolerance 1e-9 x size (1e-4 x extent downstream of the minimiser); "
                     "non-trivial = every case except degenerate ones skipped as boundary; distinct by (curve, case) JSON")
@@ -1014,8 +1092,9 @@ class C16(Prop):
         ccs = []
         gid = 0
         nzig = ctx.n(8, 60)
-        for k in range(ncurves + nzig):
-            kind = kind_of(k) if k < ncurves else "zigzag"
+        nseam = ctx.n(6, 40)
+        for k in range(ncurves + nzig + nseam):
+            kind = kind_of(k) if k < ncurves else ("zigzag" if k < ncurves + nzig else "seamcircle")
             spec = gen_spec(ctx.rng, kind)
             try:
                 curve = build(spec)
@@ -1051,7 +1130,7 @@ class C16(Prop):
         nq = nr = 0
         for (g, cc, case) in all_cases:
             res.evaluations += 1
-            res.count("kind=" + ("zigzag" if cc.spec.get("zigzag") else cc.kind))
+            res.count("kind=" + ("zigzag" if cc.spec.get("zigzag") else "circle, queries next to the seam" if cc.spec.get("seam") else cc.kind))
             res.count("op=" + case["op"])
             ob = None
             if case["op"] == "edge":
@@ -1171,11 +1250,12 @@ class C16(Prop):
             return fails[:5]
         # 2. seeded random search with the direct oracle, more cases per curve
         for k in range(ctx.n(150, 1500)):
-            kind = kind_of(k)
+            kind = "seamcircle" if k % 10 == 9 else kind_of(k)
             spec = gen_spec(ctx.rng, kind)
             try:
                 curve = build(spec)
                 cc = CurveCtx(k, spec, curve)
+                cc.n_coarse = len(curve.discretize()) if kind == "seamcircle" else None
             except Exception:
                 continue
             for case in gen_cases(ctx.rng, cc):
@@ -1191,8 +1271,10 @@ class C16(Prop):
 
     def signature(self, rp):
         why = rp.get("why", "")
-        if rp.get("op") == "closest" and "lies on another part of the curve" in why:
+        if rp.get("op") == "closest" and ("lies on another part of the curve" in why or "lie on another part of the curve" in why):
             return "C16:closest:coarse-stage-wrong-branch"
+        if rp.get("op") in ("closest", "edge") and "next to the seam of a closed curve" in why:
+            return "C16:%s:seam-of-closed-curve" % rp.get("op")
         why = re.sub(r"[-+]?\d+\.?\d*(e[-+]?\d+)?", "#", why)
         return "C16:%s:%s:%s" % (rp.get("op"), rp.get("spec", {}).get("kind"), why[:60])
 
